@@ -129,8 +129,8 @@ def compareTraitItemsLoop : List ItemSig → List ItemSig → Except Diag Unit
 def compareTraitItems (ts second : List ItemSig) : Except Diag Unit :=
   compareTraitItemsLoop ts (itemMap second)
 
-/-- the loop of `compare_inherent_items` over the items of the FIRST block (a slice: repeated names are NOT merged there),
-    `second` being the look-up table of the other block -/
+/-- the loop of `compare_inherent_items` over the entries of the FIRST block's table (a slice before /repo 133a44b, a table with one entry
+    per name since: `compareInherentItems` passes `itemMap fs`), `second` being the look-up table of the other block -/
 def compareInherentItemsLoop : List ItemSig → List ItemSig → Except Diag Unit
   | [], second =>
       if second.any (fun i => i.kind = .other) then .error .notSupported
@@ -145,7 +145,9 @@ def compareInherentItemsLoop : List ItemSig → List ItemSig → Except Diag Uni
 
 /-- `compare_inherent_items` (validate.rs:142-194) -/
 def compareInherentItems (fs second : List ItemSig) : Except Diag Unit :=
-  compareInherentItemsLoop fs (itemMap second)
+  -- since /repo 133a44b the FIRST block is turned into a table as well (one entry per name; an unsupported item aborts while it is built)
+  if fs.any (fun i => i.kind = .other) then .error .notSupported
+  else compareInherentItemsLoop (itemMap fs) (itemMap second)
 
 def firstError : List (Except Diag Unit) → Except Diag Unit
   | [] => .ok ()
